@@ -80,6 +80,7 @@ func (c03) Assumptions() []string {
 	return []string{
 		"the default store's three typed maps are read through the verif hook VerifTypedNames (the one place where a hook feeds a verdict: the property itself speaks about the store's typed view)",
 		"declare accepts only a value (literal, variable or call), as the grammar says; 'declare ... as <type>' is generated only with the matching type",
+		"one recording-store run in three answers GetValue for an unknown name with a non-nil empty Value and ok == false (the usual map idiom); the ok flag is what says whether the variable exists",
 		"host writes never change a variable's type (the property lets the host write values, it does not let it retype variables)",
 	}
 }
@@ -446,7 +447,12 @@ func (p c03) runHistory(c *core.Ctx, items []c03item, compound int) {
 		} else {
 			c.Feature("recording-store-runs")
 		}
-		pair, err, pan := NewPair(prog, scripts, PairOpts{Pre: pre, UseDefaultStore: useDef}, nil)
+		idiom := !useDef && r.Chance(1, 3)
+		if idiom {
+			// a host store written with the map idiom: unknown names give (&Value{}, false)
+			c.Feature("map-idiom-store-runs")
+		}
+		pair, err, pan := NewPair(prog, scripts, PairOpts{Pre: pre, UseDefaultStore: useDef, MapIdiomStore: idiom}, nil)
 		if err != nil || pan != "" {
 			c.Violate("a generated, syntactically valid script failed to load", map[string]any{"readers": scripts, "error": fmt.Sprint(err), "panic": pan})
 			return
